@@ -232,7 +232,7 @@ fn convert(t: OwnedTerm, chain: &[u8], dirt: &Dirt) -> OwnedTerm {
 }
 
 pub fn run(ctx: &Ctx) {
-    ctx.rule("cases = identifier (pid/port/ref; node names 1..255 bytes, 32/64-bit numbers, 1..5 words) x form (modern plain / LOCAL_EXT with random 8-byte hash and any admissible inner tag) x 9 term contexts x conversion chain of length 0..6 over {clone, to-borrowed-and-back, move, box, clone_from over a slot that held another identifier (directly and through Vec/Option/Box)}; plus every ordered pair of sibling identifiers (one field or one trailing reference word apart) in all four form combinations as the two keys of one map; distinct = distinct (kind, form, context, chain) combinations");
+    ctx.rule("cases = identifier (pid/port/ref; node names 1..255 bytes, 32/64-bit numbers, 1..5 words) x form (modern plain / LOCAL_EXT with random 8-byte hash and any admissible inner tag) x 9 term contexts x conversion chain of length 0..6 over {clone, to-borrowed-and-back, move, box, clone_from over a slot that held another identifier (directly and through Vec/Option/Box)}; re-encoded plainly and behind a distribution header (single term, and next to a control tuple); plus every ordered pair of sibling identifiers (one field or one trailing reference word apart) in all four form combinations as the two keys of one map; distinct = distinct (kind, form, context, chain) combinations");
     ctx.assume("LOCAL_EXT layout = tag, 8 hash bytes, one tag-led term (the library's documented reading)");
     let mut rng = Rng::derive(ctx.seed, 10, 1);
     let cfg = GenCfg::default();
@@ -372,6 +372,53 @@ pub fn run(ctx: &Ctx) {
             }
             Ok(Err(e)) => ctx.viol("C10:encode-error", "re-encoding failed", wit(json!({"error": e.to_string()}))),
             Err(p) => ctx.viol("C10:panic:encode", "panic", wit(json!({"panic": p}))),
+        }
+        // the same behind a distribution header (what a connection with a negotiated atom cache sends): a node-local
+        // identifier is opaque and goes out byte for byte; an ordinary one comes back equal and re-encodes to the
+        // bytes it arrived in
+        {
+            ctx.eval(1);
+            let control = OwnedTerm::Tuple(vec![OwnedTerm::Integer(2), OwnedTerm::atom(""), t2.clone()]);
+            let which = rng.below(3);
+            let r = guarded(|| match which {
+                0 => erltf::encoder::encode_with_dist_header(&t2),
+                1 => erltf::encoder::encode_with_dist_header_multi(&[&control, &t2]),
+                _ => erltf::encoder::encode_with_dist_header_multi(&[&t2, &control]),
+            });
+            let entry = ["encode_with_dist_header", "encode_with_dist_header_multi(control, term)", "encode_with_dist_header_multi(term, control)"][which];
+            match r {
+                Ok(Ok(hb)) => {
+                    if form == Form::Local {
+                        let occurrences = hb.windows(idb.len()).filter(|w| *w == &idb[..]).count();
+                        let wanted = if which == 0 { 1 } else { 2 };
+                        if occurrences < wanted {
+                            ctx.viol(
+                                &format!("C10:bytes-differ:{}:Local:behind-a-distribution-header", ["pid", "port", "ref"][kind]),
+                                "a node-local identifier is not written byte-for-byte when the term is encoded behind a distribution header",
+                                wit(json!({"entry": entry, "identifier_bytes": hex_cap(&idb, 80), "encoded": hex_cap(&hb, 200), "verbatim_occurrences": occurrences, "expected": wanted})),
+                            );
+                        }
+                    } else if which == 0 {
+                        let mut cache = erltf::AtomCache::new();
+                        match guarded(|| erltf::decode_with_atom_cache(&hb, &mut cache)) {
+                            Ok(Ok((back, _))) => {
+                                let again = erltf::encode(&back).unwrap_or_default();
+                                if again != bytes {
+                                    ctx.viol(
+                                        &format!("C10:bytes-differ:{}:Plain:behind-a-distribution-header", ["pid", "port", "ref"][kind]),
+                                        "an ordinary identifier encoded behind a distribution header does not come back as the identifier it was",
+                                        wit(json!({"entry": entry, "encoded": hex_cap(&hb, 200), "re-encoded": hex_cap(&again, 160)})),
+                                    );
+                                }
+                            }
+                            Ok(Err(e)) => ctx.viol("C10:decode-error:behind-a-distribution-header", "the library cannot read its own distribution-header encoding of a term with an identifier", wit(json!({"error": e.to_string(), "encoded": hex_cap(&hb, 200)}))),
+                            Err(p) => ctx.viol("C10:panic:decode", "panic", wit(json!({"panic": p}))),
+                        }
+                    }
+                }
+                Ok(Err(e)) => ctx.viol("C10:encode-error:behind-a-distribution-header", "encoding behind a distribution header failed", wit(json!({"entry": entry, "error": e.to_string()}))),
+                Err(p) => ctx.viol("C10:panic:encode", "panic", wit(json!({"panic": p}))),
+            }
         }
         // logical identity across forms
         if cx == 0 {
